@@ -86,6 +86,29 @@ CLAIMED = {
         note="Known findings F3 and F5 (early Differential stores reverse-builder expressions) are listed in "
              "known_findings.json. 'Same number up to rounding' is decided as 'same real function'.",
         ref="4/C06"),
+    "C08": dict(
+        technique=ABSINT + " of the rewriter, one step at a time + canonical-form algebra per step",
+        text="The driver is interpreted exactly as _fully_reduce drives it on every enumerated rule input (each "
+             "class x the child classes its reducers inspect, discovered from the source, x parameter "
+             "combinations x arities/positions up to 3), on variable-free sub-trees (defined and undefined) for "
+             "constant folding, through the normal-form pass and the public _normalize pipeline; every "
+             "intermediate expression is read back and each step, attributed to the reducer that fired, must be "
+             "defined on every sign region where its input is and have the same canonical value. Every listed "
+             "reducer must fire on some input (otherwise inconclusive).",
+        note="Known finding F3 (NthRoot._reduce_nth_root_of_mth_power, m and n even, u<0). Variables stand for "
+             "arbitrary sub-expressions (rules inspect children only one level deep); depth 2, arity <= 3.",
+        ref="4/C08"),
+    "C11": dict(
+        technique=ABSINT + " of the rewriter + termination certificate (symbol-count measures, recursive path order)",
+        text="On every enumerated rule input and on structured larger families the interpreted rewrite sequence "
+             "must not revisit a form, inputs of <= 20 nodes must not reach the library's warning fallback, every "
+             "reducer called directly on every node of a fresh copy of the final form must decline (rule-free, "
+             "independent of the driver's flags), and every observed step must be strictly decreasing in a fixed "
+             "well-founded order (mu1, mu2, then RPO; no variable duplicated), which rules out infinite chains of "
+             "the observed rule instances for arbitrary sub-expressions in the variable positions.",
+        note="The quadratic step bound is observed (max steps/size^2 reported in the evidence), not proved. "
+             "A step the certificate cannot orient is inconclusive, not a violation.",
+        ref="4/C11"),
 }
 
 NOT_APPLICABLE = {
